@@ -148,14 +148,40 @@ def run(repo):
 
         class _St(MustFlow):
             def visit(self, node, state):
-                for c in ast.walk(node):
-                    if isinstance(c, ast.Call) and isinstance(c.func, ast.Name) and c.func.id == 'Solution':
+                for c in [node] + list(ast.walk(node)):
+                    if (isinstance(c, ast.Call) and isinstance(c.func, ast.Name) and c.func.id == 'Solution') or \
+                            (c is node and isinstance(c, ast.Assign)):
                         for f in state:
                             if isinstance(f, tuple) and f[0] == 'cond' and \
                                     ('status' in f[2].lower() or 'exitflag' in f[2].lower()):
                                 status_facts[id(c)] = 'past the test `%s` (%s)' % (f[2][:50], f[1])
         _St().run(body_stmts(fi))
+        # Solution(.., objval, x, ..) fed from locals that are assigned once per outcome (objval, x = pcost, sol['x']
+        # under the status test; objval, x = nan, None otherwise): one case per definition
+        expanded_calls = []
         for call, env in calls:
+            ov = env['objval']
+            odefs = [n_ for n_ in walk_no_nested(fi.node) if isinstance(n_, ast.Assign) and len(n_.targets) == 1 and
+                     isinstance(n_.targets[0], ast.Name) and isinstance(ov, ast.Name) and n_.targets[0].id == ov.id]
+            if isinstance(ov, ast.Name) and len(odefs) > 1:
+                for d_ in odefs:
+                    blk = None
+                    for p_ in ast.walk(fi.node):
+                        for fld in ('body', 'orelse', 'finalbody'):
+                            lst = getattr(p_, fld, None)
+                            if isinstance(lst, list) and any(x_ is d_ for x_ in lst):
+                                blk = lst
+                    xv = env['x']
+                    if isinstance(xv, ast.Name) and blk is not None:
+                        xd = [x_.value for x_ in blk if isinstance(x_, ast.Assign) and len(x_.targets) == 1 and
+                              isinstance(x_.targets[0], ast.Name) and x_.targets[0].id == xv.id]
+                        if len(xd) != 1:
+                            raise AnalysisError('%s: `%s` is not assigned next to `%s`' % (fi.fq, xv.id, ov.id))
+                        xv = xd[0]
+                    expanded_calls.append((d_, dict(env, objval=d_.value, x=xv)))
+            else:
+                expanded_calls.append((call, env))
+        for call, env in expanded_calls:
             objval, x = env['objval'], env['x']
             if is_nan(objval):
                 ok = isinstance(x, ast.Constant) and x.value is None
@@ -190,10 +216,15 @@ def run(repo):
             if v is None:
                 bad_ret.append('bare return')
             elif isinstance(v, ast.Name):
-                others = [b for b in walk_no_nested(fi.node) if isinstance(b, ast.Assign)
-                          and any(isinstance(t, ast.Name) and t.id == v.id for t in b.targets)
-                          and not (isinstance(b.value, ast.Call) and isinstance(b.value.func, ast.Name)
-                                   and b.value.func.id == 'Solution')]
+                # the definitions that may reach this return (a dead initialisation `solution = None` does not)
+                from rsx.webs import reaching_values
+                if not hasattr(fi, '_reach_vals'):
+                    fi._reach_vals = reaching_values(fi.node)
+                vals = fi._reach_vals.get(id(v))
+                if vals is None:
+                    raise AnalysisError('%s: no definition of `%s` reaches the return' % (fi.fq, v.id))
+                others = [b for b in vals if not (isinstance(b, ast.Call) and isinstance(b.func, ast.Name)
+                                                  and b.func.id == 'Solution')]
                 if v.id not in sol_names or others:
                     bad_ret.append('returns `%s`, which is not only bound to Solution(..)' % v.id)
             elif not (isinstance(v, ast.Call) and isinstance(v.func, ast.Name) and v.func.id == 'Solution'):
@@ -430,8 +461,12 @@ def _ecos_blocks(repo, res):
             raise AnalysisError('eco_solver.solve: sign of the coefficients of block %s (`%s`) not recognised'
                                 % (b, ntext(binds[b])[:50]))
         coef_neg = sg < 0
+        e = ex(e)
         rhs_neg = isinstance(e, ast.UnaryOp) and isinstance(e.op, ast.USub)
         which = 'lb' if '.lb' in ntext(e) else 'ub' if '.ub' in ntext(e) else '?'
+        if which == '?':
+            raise AnalysisError('eco_solver.solve: right-hand side `%s` of block %s is not read from the bounds '
+                                'in a form the rule interprets' % (ntext(e)[:40], b))
         detail.append((b, 'c<0' if coef_neg else 'c>0', 'k<0' if rhs_neg else 'k>0', which))
         if coef_neg != rhs_neg or (which == 'ub') == coef_neg or which == '?':
             sign_ok = False
@@ -447,8 +482,16 @@ def _ecos_blocks(repo, res):
         for k, v in zip(d.keys, d.values):
             if isinstance(k, ast.Constant) and k.value == 'l':
                 l_expr = v
+    elif isinstance(d, ast.Call) and isinstance(d.func, ast.Name) and d.func.id == 'dict' and not d.args:
+        for k in d.keywords:
+            if k.arg == 'l':
+                l_expr = k.value
+    if l_expr is None:
+        raise AnalysisError("eco_solver.solve: the entry 'l' of dims is not found in `%s`" % ntext(d)[:50])
     want = [i[0] for i in g_idx if len(i) == 1]
-    got = len_args(l_expr) if l_expr is not None else []
+    # the number of rows of a block (Glb.shape[0]) is the size of its index set
+    blk_idx = {b_: i_[0] for b_, i_ in zip(gblocks, g_idx) if len(i_) == 1}
+    got = [blk_idx.get(x, x) for x in len_args(l_expr)]
     ok = sorted(got) == sorted(want)
     res.inst({'ecos': "dims['l']", 'terms': got, 'blocks': want}, ok)
     if not ok:
@@ -458,7 +501,26 @@ def _ecos_blocks(repo, res):
     offs = []
     for n in walk_no_nested(fi.node):
         if isinstance(n, ast.Subscript) and ntext(ex(n.value)) == "sol['z']" and isinstance(n.ctx, ast.Load):
-            offs.append(len_args(n.slice))
+            if isinstance(n.slice, ast.Slice):
+                # z[lo:hi]: hi is the offset plus the size of the block, lo the offset alone
+                if n.slice.step is not None or n.slice.upper is None:
+                    raise AnalysisError("eco_solver.solve: slice `%s` of sol['z'] is outside the interpreted forms"
+                                        % ntext(n.slice))
+                hi = len_args(n.slice.upper)
+                lo = len_args(n.slice.lower) if n.slice.lower is not None else []
+                rest = list(hi)
+                for x in lo:
+                    if x in rest:
+                        rest.remove(x)
+                    else:
+                        rest = None
+                        break
+                if rest is None or len(rest) != 1:
+                    raise AnalysisError("eco_solver.solve: slice `%s` of sol['z'] does not span exactly one block"
+                                        % ntext(n.slice))
+                offs.append(hi)
+            else:
+                offs.append(len_args(n.slice))
     if not offs:
         raise AnalysisError("eco_solver.solve: no read of sol['z'][..] found")
     exp = [want[:1], want[:2], want[:3]]
